@@ -23,6 +23,8 @@ pub mod c15;
 pub mod c16;
 #[cfg(feature = "full")]
 pub mod c16walk;
+#[cfg(feature = "full")]
+pub mod c17;
 pub mod c18;
 pub mod c19;
 #[cfg(feature = "full")]
@@ -48,6 +50,8 @@ pub fn run(ctx: &Ctx) -> Option<i32> {
         "C15" => c15::run(ctx),
         #[cfg(feature = "full")]
         "C16" => c16::run(ctx),
+        #[cfg(feature = "full")]
+        "C17" => c17::run(ctx),
         "C18" => c18::run(ctx),
         "C19" => c19::run(ctx),
         _ => return None,
